@@ -10,6 +10,16 @@ def att_item(adr, s, t, tag):
     return "%s,%s,0,0,%s,%d,%s,%d,%s" % (adr, (DOM_ATT + bytes(28)).hex(), r.hex(), s, r.hex(), t, r.hex())
 
 
+def att_item3(adr, s, t, bbr, sr, tr):
+    """attestation item with the three roots chosen separately"""
+    rb, rs, rt = (bytes([0xA0 + x]) * 32 for x in (bbr, sr, tr))
+    return "%s,%s,0,0,%s,%d,%s,%d,%s" % (adr, (DOM_ATT + bytes(28)).hex(), rb.hex(), s, rs.hex(), t, rt.hex())
+
+
+def att_op3(adr, s, t, bbr, sr, tr, client="client1"):
+    return "att %s - %s %s -" % (hx(client), adr, att_item3(adr, s, t, bbr, sr, tr).split(",", 1)[1])
+
+
 def att_op(adr, s, t, tag, client="client1"):
     return "att %s - %s %s -" % (hx(client), adr, att_item(adr, s, t, tag).split(",", 1)[1])
 
@@ -31,14 +41,16 @@ def key(a):
     return "k:" + a.pk.hex()
 
 
-def steered(r, accts):
+def steered(r, accts, kinds=None):
     """one steered scenario: (prefix ops, parks, [(delay ms, op)], workers)"""
     good = [a for a in accts if a.unlockable and a.wallet == "Wallet 1"]
     a, b, c = good[0], good[1], good[2]
     base = 3 + r.below(5)
     prefix = [att_op(name(x), 1, base, 0) for x in (a, b, c)] + [prop_op(name(a), base, 0)]
     kind = r.weighted([("single-pair", 4), ("batch-vs-single", 5), ("opposite-batches", 4), ("prop-pair", 3), ("mixed", 5),
-                       ("batch-vs-batch-overlap", 4)])
+                       ("batch-vs-batch-overlap", 4), ("deadline-rollback-att", 3), ("deadline-rollback-prop", 3), ("near-identical-singles", 9)])
+    if kinds:
+        kind = r.choice(kinds)
     t = base + 1 + r.below(3)
     park_ms = 40 + r.below(40)
     if kind == "single-pair":
@@ -57,6 +69,32 @@ def steered(r, accts):
                 (3, atts_op([att_item(name(c), 1, t, 2), att_item(name(b), 2, t + 1, 2)])),
                 (6, att_op(name(b), 1, t + 2, 3))]
         parks = "%s:%d" % (r.choice([a, b, c]).pk.hex()[:16], park_ms)
+    elif kind in ("deadline-rollback-att", "deadline-rollback-prop"):
+        # request A's state write stalls (slow disk) and its client gives up meanwhile; B, for the same key and further
+        # on, is issued while A stalls; C conflicts with B and comes after everything has settled.  Whatever the order
+        # in which A and B take effect, B and C must not both be signed.
+        stall = 180 + r.below(80)
+        dl = 30 + r.below(40)
+        if kind.endswith("att"):
+            A = att_op(r.choice([name(a), key(a)]), 1, t, 1)
+            B = att_op(r.choice([name(a), key(a)]), 2, t + 3, 2)
+            C = att_op(r.choice([name(a), key(a)]), 2, t + 3, 3)
+        else:
+            A = prop_op(r.choice([name(a), key(a)]), base + 1, 1)
+            B = prop_op(r.choice([name(a), key(a)]), base + 4, 2)
+            C = prop_op(r.choice([name(a), key(a)]), base + 4, 3)
+        cops = [("0@%d" % dl, A), (dl + 20 + r.below(30), B), (stall + 150, C)]
+        parks = "%s:%d" % (a.pk.hex()[:16], stall)
+    elif kind == "near-identical-singles":
+        # single requests for one key that differ in ONE root only (same slot, committee, epochs and the other roots),
+        # in flight together: at most one of them may be signed
+        which = r.weighted([(0, 1), (1, 2), (2, 2)])
+        cops = []
+        for q in range(2 + r.below(2)):
+            roots = [0, 0, 0]
+            roots[which] = q
+            cops.append((q * 3, att_op3(r.choice([name(a), key(a)]), 1, t, roots[0], roots[1], roots[2])))
+        parks = "%s:%d" % (a.pk.hex()[:16], park_ms)
     elif kind == "prop-pair":
         s = base + 1
         cops = [(0, prop_op(name(a), s, 1)), (4, prop_op(key(a), s, 2)), (4, prop_op(name(a), s + 1, 3))]
